@@ -64,7 +64,7 @@ def generate(ctx):
         v = v[2][0]
         # peel the zero-fills: concatenate([zeros(shape{[0] := k}), x]) in front, concatenate([x, zeros(..)]) behind
         fills = []
-        while v[0] == "call" and v[1] == ("attr", S("np"), "concatenate") and dict(v[3]).get("axis") == X.const(0) and v[2] and v[2][0][0] == "list" and len(v[2][0][1]) == 2:
+        while v[0] == "call" and v[1] == ("attr", S("np"), "concatenate") and X.arg(v, 1, "axis") == X.const(0) and v[2] and v[2][0][0] == "list" and len(v[2][0][1]) == 2:
             a_, b_ = v[2][0][1]
             def zlen(z):
                 """length along the slice axis of np.zeros(shape, ..): shape is the window's with entry 0 replaced, or [k, *rest]"""
